@@ -1797,7 +1797,7 @@ def main(argv):
         cov["translator"] = PRE[prop](v)
 
     # 2. theorems
-    rc, out = build_lean([f"Pathrs.Proofs.Props.{prop}", "pathrs_model"])
+    rc, out = build_lean([m for _, m in vlib.prop_modules(prop)] + ["pathrs_model"])
     lean_ok = rc == 0
     names, axioms = [], {}
     bad_axioms = {}
